@@ -17,7 +17,7 @@ from .c02 import nan_group_mask
 ID = "C03"
 RULE = (
     "Hypothesis: reduce cases (all reductions with a combine stage; 1-D labels, optional batch dim) with 3..16 blocks "
-    "(one case in eight: 17-80 size-1 blocks) along the reduced axis, method in {map-reduce, cohorts, None}, and scan cases (nancumsum/ffill/bfill) with 2..12 "
+    "(one case in eight: 17-80 size-1 blocks) along the reduced axis, method in {map-reduce, cohorts, None}, reindex in {None, False, True}, optional expected_groups + fill + min_count, and scan cases (nancumsum/ffill/bfill) with 2..12 "
     "blocks (arg-reductions compared on NaN-free groups only, nanarg* on not-all-NaN groups: the domain on which they are specified). Systematic sweep per case: split_every = every value 2..nblocks (sampled to <=6 values incl. 2, 3 and "
     "nblocks when nblocks > 7), each graph computed under the synchronous scheduler, the threaded scheduler (4 workers) "
     "and the harness-owned scheduler in orders {seeded random x2, min-key, max-key, depth-first, breadth-first}, optimised "
@@ -66,6 +66,15 @@ def cases(draw, tier="quick"):
     }  # fmt: skip
     if not is_scan and gen.func_family(func) == "var":
         case["ddof"] = draw(st.sampled_from([None, 1]))
+    if not is_scan:
+        # the combine path depends on where intermediates are reindexed and on the count-based masking
+        case["reindex"] = draw(st.sampled_from([None, None, False, True]))
+        present = sorted({v for v in lab["spec"]["v"] if v != "nan"})
+        if present and draw(st.integers(0, 2)) == 0 and "arg" not in func:
+            extra = {"int": 77, "float": 99.5, "str": "zz", "u1": 77}[lab["kind"]]
+            case["expected"] = {"labels": present + [extra], "as": "array"}
+            case["fill_value"] = draw(st.sampled_from(["nan", 0]))
+            case["min_count"] = draw(st.sampled_from([None, None, 1, 2]))
     return case
 
 
@@ -99,6 +108,8 @@ def build(case, split_every):
     if case["scan"]:
         return groupby_scan(d, by, func=case["func"]), None
     kw = reduce_kwargs(case)
+    if case.get("reindex") is not None:
+        kw["reindex"] = case["reindex"]
     with dask.config.set(split_every=split_every):
         r, g = groupby_reduce(d, by, engine=case.get("engine"), method=case.get("method"), **kw)
     return r, g
